@@ -46,6 +46,12 @@ def nearestSameProbe (pos : List (Rat × Rat)) (probes : List Nat) (peak ncw : N
   let keys := (List.range pos.length).map (distKey pos probes peak)
   ((Np.isort (fun (a b : Option Rat × Nat) => leInf a.1 b.1) keys.zipIdx).map (·.2)).take ncw
 
+/-- `templates.waveformsChannels` / `clusters.waveformsChannels` (alf.py:268-274, 289-295): row `t` = the `ncw` nearest
+same-probe channels of `model.templates_channels[t]` / `model.clusters_channels[t]`, which is the peak channel of the
+STORED waveform `t` (`_channels`, model.py:1289-1299 — the C09 model `peakChannels`) -/
+def exportListedChannels (wfs : List Mat) (pos : List (Rat × Rat)) (probes : List Nat) (ncw : Nat) : List (List Nat) :=
+  (peakChannels wfs).map fun pk => nearestSameProbe pos probes pk ncw
+
 /-- exported waveform block: `wfs[t][:, inds[t]]` -/
 def exportWaveforms (wfs : List Mat) (inds : List (List Nat)) : List Mat :=
   (wfs.zip inds).map fun p => p.1.map fun row => p.2.map fun c => row.getD c 0
